@@ -70,3 +70,7 @@ impl EncoderValue for NewToken<'_> {
         buffer.encode_with_len_prefix::<VarInt, _>(&self.token);
     }
 }
+
+#[cfg(all(aws_s2n_quic_verif, test))]
+#[path = "/verif/harness/core/frame_new_token.rs"]
+mod verif;
